@@ -72,10 +72,18 @@ type tcase struct {
 	Method  string
 	Variant string
 	Ready   bool
+	// thorough tier, variant "allowed-key-one-byte-changed": which byte of which signature field
+	Field string // "sign" | "key"
+	Pos   int
+	Mask  byte
 }
 
 func (c tcase) String() string {
-	return fmt.Sprintf("%s.%s variant=%s ready=%v", c.Server, c.Method, c.Variant, c.Ready)
+	s := fmt.Sprintf("%s.%s variant=%s ready=%v", c.Server, c.Method, c.Variant, c.Ready)
+	if c.Field != "" {
+		s += fmt.Sprintf(" %s[%d]^=%#x", c.Field, c.Pos, c.Mask)
+	}
+	return s
 }
 
 // ---------- storage node world ----------
@@ -333,6 +341,20 @@ func buildRequest(c tcase, sig sw.Signature, ownKeyLabel string, shardID []byte,
 			b[len(b)/2] ^= 0x04
 			*s = b
 		}
+	case "allowed-key-one-byte-changed":
+		if err = sign(adminKey); err == nil {
+			k, s := sigOf()
+			t := s
+			if c.Field == "key" {
+				t = k
+			}
+			if c.Pos >= len(*t) {
+				return req, false, nil
+			}
+			b := append([]byte(nil), *t...)
+			b[c.Pos] ^= c.Mask
+			*t = b
+		}
 	case "allowed-key-claimed-signed-by-other":
 		if err = sign(otherKey); err == nil {
 			k, _ := sigOf()
@@ -493,6 +515,7 @@ func main() {
 		}
 		mu.Lock()
 		classes[fmt.Sprintf("%s %s ready=%v -> %s", c.Server, c.Variant, c.Ready, o.Code)]++
+		_ = key
 		mu.Unlock()
 	}
 
@@ -512,7 +535,7 @@ func main() {
 		}
 		for _, v := range variants {
 			for _, ready := range []bool{true, false} {
-				cases = append(cases, tcase{"storage", m, v, ready})
+				cases = append(cases, tcase{Server: "storage", Method: m, Variant: v, Ready: ready})
 			}
 		}
 	}
@@ -521,7 +544,26 @@ func main() {
 			r.Fatal("IR control method %s has an unsupported signature", m)
 		}
 		for _, v := range variants {
-			cases = append(cases, tcase{"ir", m, v, true})
+			cases = append(cases, tcase{Server: "ir", Method: m, Variant: v, Ready: true})
+		}
+	}
+	if r.Thorough() {
+		// exhaustive single-byte deviation of the correct request's signature value (65 bytes) and key (33 bytes)
+		add := func(server, m string) {
+			for _, mask := range []byte{0x01, 0x80} {
+				for p := 0; p < 65; p++ {
+					cases = append(cases, tcase{Server: server, Method: m, Variant: "allowed-key-one-byte-changed", Ready: true, Field: "sign", Pos: p, Mask: mask})
+				}
+				for p := 0; p < 33; p++ {
+					cases = append(cases, tcase{Server: server, Method: m, Variant: "allowed-key-one-byte-changed", Ready: true, Field: "key", Pos: p, Mask: mask})
+				}
+			}
+		}
+		for _, m := range snMethods {
+			add("storage", m)
+		}
+		for _, m := range irMethods {
+			add("ir", m)
 		}
 	}
 	enumx.Parallel(len(cases), func(i int) { check(cases[i]) })
@@ -530,12 +572,12 @@ func main() {
 	// above prove nothing about the signature check)
 	if r.Violations() == 0 {
 		for _, m := range snMethods {
-			if _, ok := passed[tcase{"storage", m, "correct", true}.String()]; !ok {
+			if _, ok := passed[tcase{Server: "storage", Method: m, Variant: "correct", Ready: true}.String()]; !ok {
 				r.Fatal("storage.%s: the correctly signed request did not pass", m)
 			}
 		}
 		for _, m := range irMethods {
-			if _, ok := passed[tcase{"ir", m, "correct", true}.String()]; !ok {
+			if _, ok := passed[tcase{Server: "ir", Method: m, Variant: "correct", Ready: true}.String()]; !ok {
 				r.Fatal("ir.%s: the correctly signed request did not pass", m)
 			}
 		}
